@@ -6,37 +6,7 @@ From SwiftMT Require Import Base.Bytes Engine.Layout Family.Model Family.Facts.
 From SwiftMT Require Export gen.Families.
 From SwiftMT Require gen.Layouts.
 
-Definition ptag (p : bytes) : bytes := match lookup p payload_tags with Some t => t | None => [] end.
-Definition resolve (n : bytes) : bytes := match lookup n field_aliases with Some y => y | None => n end.
-Definition family_named (n : bytes) : option family :=
-  find (fun f => bytes_eqb (f_name f) (resolve n)) families.
-
-(* every (family, base tag) a layout reads with parse_variant_field / parse_optional_variant_field *)
-Fixpoint stmt_fams (s : stmt) : list (bytes * bytes) :=
-  let fix go (l : list stmt) : list (bytes * bytes) :=
-    match l with [] => [] | x :: r => stmt_fams x ++ go r end in
-  match s with
-  | SReqV fam base _ | SOptV fam base _ => [(fam, base)]
-  | SWhile _ body => go body
-  | SIf _ th el => go th ++ go el
-  | SPeek _ _ arms default =>
-      (fix ga (a : list (list bytes * list stmt)) := match a with [] => [] | (_, b) :: r => go b ++ ga r end) arms ++ go default
-  | SWhileLetOk call body => stmt_fams call ++ go body
-  | STryElse call _ th el => stmt_fams call ++ go th ++ go el
-  | _ => []
-  end.
-
-Definition positions : list (bytes * (bytes * bytes)) :=
-  flat_map (fun p => map (fun fb => (fst p, fb)) (flat_map stmt_fams (snd p))) gen.Layouts.all_layouts.
-
-Definition position_ok (x : bytes * (bytes * bytes)) : bool :=
-  match family_named (fst (snd x)) with
-  | Some f => wf_family ptag f (snd (snd x)) && heur_on_input f
-  | None => false
-  end.
-
-(* the positions that do NOT meet the condition, listed (empty = all fine) *)
-Definition bad_positions : list (bytes * (bytes * bytes)) := filter (fun x => negb (position_ok x)) positions.
+From SwiftMT Require Export Family.Defs.
 
 Lemma gen_positions_ok : bad_positions = [].
 Proof. vm_compute. reflexivity. Qed.
